@@ -26,7 +26,35 @@ def run_case(ctx, res, spec, lines, post):
     narrow = 'targets' not in spec and bool(spec.get('narrow', rng.random() < 0.45))
     if narrow:      # a rough (too narrow) initial guess of every coupling domain, widened by training as it goes
         spec = dict(spec); spec['coupling_domain'] = rng.choice([(0.3, 0.5), (0.9, 1.0), (-0.2, 0.1)])
-    system = sc.build_system(spec, listing=rng.sample(range(len(spec['comps'])), len(spec['comps'])))
+    if 'c04_case' in spec:
+        # a FEEDBACK loop of two surrogate components (affine coupling) with a downstream component
+        from harness import c04
+        system = c04.build(spec['c04_case'])[0]
+        res.hit('system-with-feedback-loop')
+    else:
+        wrap = None
+        if spec.get('crashy'):
+            # a (vectorised) model that crashes ONCE in the middle of training: the exception escapes refine(), the caller retries
+            import inspect
+            cnt, crash_at = [0], rng.randint(4, 9)
+            armed = [False]          # only model calls made from inside refine() count (not the harness's own predictions)
+            spec = dict(spec); spec['_armed'] = armed
+
+            def wrap(cname, model):
+                def guard():
+                    if not armed[0]:
+                        return
+                    cnt[0] += 1
+                    if cnt[0] == crash_at:
+                        raise RuntimeError('solver crashed')
+                if 'model_fidelity' in inspect.signature(model).parameters:
+                    def m(inputs, model_fidelity=None):
+                        guard(); return model(inputs, model_fidelity=model_fidelity)
+                else:
+                    def m(inputs):
+                        guard(); return model(inputs)
+                return m
+        system = sc.build_system(spec, listing=rng.sample(range(len(spec['comps'])), len(spec['comps'])), model_wrap=wrap)
     np.random.seed(spec['seed'] % 2 ** 31)
     update_bounds = narrow or rng.random() < 0.3
     nsteps = rng.randint(6, 12 if ctx.quick else 20)
@@ -36,13 +64,19 @@ def run_case(ctx, res, spec, lines, post):
     if spec.get('cleared', rng.random() < 0.3):
         # life-cycle: an earlier training run on the same object, then clear(): the replay is about the NEW history only
         for _ in range(rng.randint(2, 4)):
-            r0 = system.refine(num_refine=30, update_bounds=False, targets=spec.get('targets'))
+            try:
+                r0 = system.refine(num_refine=30, update_bounds=False, targets=spec.get('targets'))
+            except RuntimeError as e:
+                if 'solver crashed' not in str(e):
+                    raise
+                continue
             if r0['component'] is None:
                 break
             system.train_history.append(r0)
         system.clear()
         res.hit('earlier-history-cleared')
-    via_fit = rng.random() < 0.4      # the history is recorded by fit() itself, one step per call, some calls out of time budget
+    via_fit = rng.random() < 0.4 and not spec.get('crashy')
+         # the history is recorded by fit() itself, one step per call, some calls out of time budget
     for step in range(nsteps):
         if via_fit:
             n0 = len(system.train_history)
@@ -59,7 +93,19 @@ def run_case(ctx, res, spec, lines, post):
                                      'input': {'spec': spec, 'step': step, 'fit_kwargs': {k_: str(v_) for k_, v_ in kwf.items()}},
                                      'observed': len(system.train_history) - n0, 'expected': 1})
         else:
-            r = system.refine(num_refine=30, update_bounds=update_bounds, targets=spec.get('targets'))
+            try:
+                if spec.get('_armed'):
+                    spec['_armed'][0] = True
+                try:
+                    r = system.refine(num_refine=30, update_bounds=update_bounds, targets=spec.get('targets'))
+                finally:
+                    if spec.get('_armed'):
+                        spec['_armed'][0] = False
+            except RuntimeError as e:
+                if 'solver crashed' not in str(e):
+                    raise
+                res.hit('model-crash-escaped-refine-and-step-was-retried')
+                continue
             if r['component'] is None:
                 break
             system.train_history.append(r)
@@ -141,9 +187,9 @@ def run_case(ctx, res, spec, lines, post):
             lines.append(ln); post.append(pst)
     if narrow:
         res.hit('narrow-initial-coupling-domains-widened-by-training')
-    if any(c['na'] for c in spec['comps']):
+    if any(c['na'] for c in spec.get('comps', [])):
         res.hit('with-model-fidelity')
-    if any(c['nosurr'] for c in spec['comps']):
+    if any(c['nosurr'] for c in spec.get('comps', [])):
         res.hit('with-surrogate-less-component')
     if any(np.isnan(h['added_error']) for h in system.train_history[len(surr):]):
         res.hit('non-initial-step-with-undefined-indicator')
@@ -152,6 +198,7 @@ def run_case(ctx, res, spec, lines, post):
 def zeroed(spec, k):
     spec['narrow'] = (k % 2 == 0)
     spec['cleared'] = (k % 3 == 2)
+    spec['crashy'] = (k % 4 == 1)
     """every third system: the last surrogate component's model vanishes on its coarse grids and training targets only its
     output, so that ordinary (non-initial) refinement steps are recorded with an undefined (NaN) error indicator"""
     if k % 3 != 1:
@@ -173,6 +220,12 @@ def run(ctx: core.Ctx, only=None) -> core.Result:
     lines, post = [], []
     specs = [o.get('input', o).get('spec', o.get('input', o)) for o in only] if only is not None else \
         [c.get('spec', c) for c in core.corpus_cases('C18')] + [zeroed(sc.gen_system_spec(ctx.rng), k) for k in range(ctx.scale(10, 60))]
+    if only is None:
+        for k_ in range(ctx.scale(2, 8)):
+            specs.append({'seed': ctx.rng.randrange(10 ** 9), 'narrow': False, 'cleared': False,
+                          'c04_case': {'topo': ['loop2', 'loop2s'][k_ % 2], 'seed': ctx.rng.randrange(10 ** 6),
+                                       'coef': [ctx.rng.choice([-2, -1, 1, 2, 3]) * ctx.rng.choice([0.5, 1.0]) for _ in range(12)],
+                                       'bounds': 'fixed', 'guess': 'wide', 'norm': None}})
     for spec in specs:
         with core.guarded(res, 'scenario-raised', {'spec': spec}):
             sub_lines, sub_post = [], []
